@@ -34,6 +34,31 @@ def main(argv):
         except core.HarnessDied as e:
             res.inconclusive.append("harness process died unexpectedly: %s %s" % (e, e.stderr[-300:]))
         return core.finish(res, level=getattr(mod, "LEVEL", "exploration"))
+    if cmd == "survey":
+        # dev helper: class histogram of observations without writing evidence
+        import collections, json
+        pid = argv[1]
+        tier, seed = core.tier_seed()
+        if "--tier" in argv:
+            tier = argv[argv.index("--tier") + 1]
+        if "--seed" in argv:
+            seed = int(argv[argv.index("--seed") + 1])
+        mod = importlib.import_module("mon.checks.%s" % pid.lower())
+        res = core.Result(pid, tier, seed)
+        mod.run(res)
+        c = collections.Counter(o.cls for o in res.obs)
+        known = core.load_findings()
+        for cls, n in c.most_common():
+            exs = [o for o in res.obs if o.cls == cls][:int(os.environ.get("NEX", "2"))]
+            print(n, cls, "(known)" if (pid, cls) in known else "")
+            for o in exs:
+                print("     ", json.dumps(core._jsonable(o.detail), ensure_ascii=False)[:300])
+                if os.environ.get("WIT"):
+                    print("      W:", json.dumps(core._jsonable(o.witness), ensure_ascii=False)[:int(os.environ["WIT"])])
+        print(dict(res.counters))
+        print({k: (v if not isinstance(v, (dict, list, set, collections.Counter)) else len(v)) for k, v in res.cover.items()})
+        print("evaluations", res.evaluations, "distinct", len(res.distinct), "inconclusive", res.inconclusive, "wall %.1f" % (time.time() - res.t0))
+        return 0
     if cmd == "replay":
         import json
         w = json.load(open(argv[1]))
